@@ -262,6 +262,9 @@ func fmtItems(its []*astisub.Item) string {
 
 var opTexts = []string{"a", "b", "c"}
 
+// opTextsWide adds a cue without any line ("~") and a cue with one empty line ("")
+var opTextsWide = []string{"a", "b", "c", "a", "b", "~", ""}
+
 const (
 	nsMs   = int64(time.Millisecond)
 	nsHour = int64(time.Hour)
